@@ -11,6 +11,7 @@ ID = 'C17'
 LEAN_MODULES = ['Proofs.C17']
 REQUIRED = ['C17.kdt_len_eq', 'C17.kdt_x_distinct_inrange', 'C17.kdt_y_inrange', 'C17.kdt_knn_member',
             'C17.kdt_y_injective', 'C17.kdt_pairs_one_to_one', 'C17.kdt_row_marked_at_most_once', 'C17.kdt_matched_iff',
+            'C17.kdt_matched_iff_wf',
             'C17.kdt_marks_greedy', 'C17.kdt_closest_claimant', 'C17.kdt_first_neighbour_matched',
             'C17.kdt_sortedpos_not_injective']
 TRUSTED = ['scipy.spatial.cKDTree(y).query(x, k=K, distance_upper_bound=b) is an oracle: its result (D, inds) is obtained from the '
@@ -208,10 +209,14 @@ class Random(Stream):
 
     def corpus(self):
         return [
-            # D13: positions in the sorted copy used as row numbers -> y row 1 matched twice (pinned code)
+            # D13 (fixed in 27b5baa): positions in the sorted copy used as row numbers -> pinned code returned x=[1,2], y=[0,0]
+            {'x': [[0.0], [0.1], [0.2]], 'y': [[1.0], [-1.0]], 'K': 2, 'bound': None, 'flat': 0, 'family': 'corpus'},
+            {'x': [[0.0], [0.1], [0.2]], 'y': [[1.0], [-1.0]], 'K': 2, 'bound': None, 'flat': 1, 'family': 'corpus'},
+            # D13, the witness of theorem C17.kdt_sortedpos_not_injective: pinned code returned x=[1,2], y=[0,0]
+            {'x': [[0.0], [1.0], [1.0]], 'y': [[2.0]], 'K': 2, 'bound': 1.5, 'flat': 0, 'family': 'corpus'},
             {'x': [[0.0], [3.0], [1.0]], 'y': [[1.0], [0.0], [3.5]], 'K': 2, 'bound': None, 'flat': 0, 'family': 'corpus'},
-            {'x': [[0.0], [3.0], [1.0]], 'y': [[1.0], [0.0], [3.5]], 'K': 2, 'bound': None, 'flat': 1, 'family': 'corpus'},
-            # D21: K = 1 (cKDTree.query returns 1-D arrays)
+            # D21 (fixed in 0aa5014): K = 1, cKDTree.query returns 1-D arrays -> pinned code raised IndexError
+            {'x': [[0.0], [0.1], [0.2]], 'y': [[1.0], [-1.0]], 'K': 1, 'bound': None, 'flat': 0, 'family': 'corpus'},
             {'x': [[0.0], [3.0], [1.0]], 'y': [[1.0], [0.0], [3.5]], 'K': 1, 'bound': None, 'flat': 0, 'family': 'corpus'},
             {'x': [[0.0, 1.0]], 'y': [[1.0, 0.0]], 'K': 1, 'bound': None, 'flat': 0, 'family': 'corpus'},
             # the repo's own test: two sorted linspace vectors, K = 2
